@@ -24,11 +24,12 @@ ValP == Cond("pen", <<>>, 0, 0, 2, 1, 1)
 TrainSets == {<<Fit1>>, <<Fit2>>, <<Fit1, Pen, Inv>>, <<Inv, Pen>>, <<Ada>>, <<Fit2, Ada>>, <<Pen, Fit1>>, <<Ada, Inv, Pen>>, <<Fit1, Fit2>>,
               <<Fit1, Zero>>, <<Zero, Inv, Pen>>, <<Data1>>, <<Data2, Pen, Inv>>, <<Data1, Fit2>>, <<Ada2>>, <<Ada3>>, <<Ada3, Pen>>}
 Cfgs == {[a0 |-> a0, b0 |-> 0, k0 |-> 2, nl |-> 2, lrn |-> 1, lrd |-> lrd, mun |-> mun, mud |-> 2, ssize |-> ss, freq |-> fr,
-          gn |-> 1, gd |-> 2, N |-> NSteps, train |-> tr, val |-> vl, val_interval |-> 2, ckint |-> ck, kill |-> kl, refit |-> rf] :
+          gn |-> 1, gd |-> 2, N |-> NSteps, train |-> tr, val |-> vl, val_interval |-> 2, ckint |-> ck, kill |-> kl, refit |-> rf, opt |-> op] :
+            op \in (IF CkMode THEN {"sgd", "two"} ELSE {"sgd"}),        \* "two": the two-evaluation optimizer of Training.tla (crash / resume only)
             rf \in (IF CkMode THEN {FALSE} ELSE BOOLEAN),
             a0 \in {1, -1}, lrd \in {4, 2}, mun \in {0, 1}, ss \in {0, 1, 2}, fr \in {1, 2}, tr \in TrainSets, vl \in {<<>>, <<ValC>>, <<ValD>>, <<ValP>>},
             ck \in (IF CkMode THEN {1, 2} ELSE {0}), kl \in (IF CkMode THEN 1..(NSteps - 1) ELSE {0})}
-Valid(cfg) == (cfg.ssize = 0 => cfg.freq = 1) /\ (CkMode => (cfg.kill - 1) % cfg.ckint = 0 /\ cfg.val = <<>>)
+Valid(cfg) == (cfg.ssize = 0 => cfg.freq = 1) /\ (cfg.opt = "two" => cfg.mun = 0) /\ (CkMode => (cfg.kill - 1) % cfg.ckint = 0 /\ cfg.val = <<>>)
               /\ (cfg.refit => cfg.val = <<>> /\ cfg.a0 = 1 /\ \A j \in DOMAIN cfg.train : cfg.train[j].kind # "data")
               /\ (cfg.val = <<ValD>> => cfg.train[1].kind = "data" /\ cfg.train[1].bs = 2)
               /\ (cfg.val = <<ValP>> => HasKind(cfg.train, "inv") \/ HasKind(cfg.train, "pen"))
@@ -38,7 +39,7 @@ TrajFits(cfg, n) == IF n = 0 THEN TRUE ELSE TrajFits(cfg, n - 1) /\ StateFits(Af
 \* a long run at the optimum (zero gradients): only the learning-rate schedule moves, over more than 1000 steps with a
 \* scheduler frequency that does not divide 1000
 Long == [a0 |-> 2, b0 |-> 1, k0 |-> 2, nl |-> 2, lrn |-> 1, lrd |-> 4, mun |-> 0, mud |-> 2, ssize |-> 1, freq |-> 300,
-         gn |-> 1, gd |-> 2, N |-> 1250, train |-> <<Fit1>>, val |-> <<>>, val_interval |-> 2, ckint |-> 0, kill |-> 0, refit |-> FALSE]
+         gn |-> 1, gd |-> 2, N |-> 1250, train |-> <<Fit1>>, val |-> <<>>, val_interval |-> 2, ckint |-> 0, kill |-> 0, refit |-> FALSE, opt |-> "sgd"]
 Scen == {[cfg |-> c] : c \in {x \in Cfgs : Valid(x) /\ TrajFits(x, IF x.refit THEN 2 * NSteps ELSE NSteps)}} \cup (IF CkMode THEN {} ELSE {[cfg |-> Long]})
 ASSUME ndJsonSerialize(IOEnv.OUT_FILE, SetToSeq(Scen)) /\ PrintT(<<"SCENARIOS", Cardinality(Scen), Cardinality({x \in Cfgs : Valid(x)})>>)
 ==========================================================================
